@@ -112,7 +112,14 @@ func (language *Language) CompilerPasses() compiler.Passes {
 		&compiler.DisjunctionWithNullToOptional{},
 		&compiler.DisjunctionInferMapping{},
 		&compiler.RenameNumericEnumValues{},
+		// members named after operators (`"<"`, `">"`) or names that only differ by case
+		&compiler.EnumMemberIdentifiers{Language: LanguageRef, Identifier: enumMemberIdentifier},
 	}
+}
+
+// enumMemberIdentifier gives the name of the attribute declared for an enum member.
+func enumMemberIdentifier(member ast.EnumValue) string {
+	return formatEnumMemberName(member.Name)
 }
 
 func (language *Language) NullableKinds() languages.NullableConfig {
